@@ -447,7 +447,7 @@ var codeAlphabet = []byte("NALPHRUCXFTWOMDSBE nlxdp01-\t")
 func TestC20(t *testing.T) {
 	c := begin(t, "C20")
 	defer c.end()
-	c.rec.F.Rule = "tables (complete): for all 22 v3 and 14 v2 metrics every code, its exported constant, printing, the validity predicates, every weight (PR per scope; every Modified metric at every own value x every base value; MPR over all 3 x 2 x 4 x 3 combinations of MS, S, MPR, PR) every integer in [-8, max+8] and integers aliasing a defined value under 8/16/32-bit truncation (no panic, print empty, same weight as the unknown value in every context; defined values under out-of-range contexts likewise); long strings that start with a valid code (NUL / letter / blank fill at lengths 7..17, 255..257, 256+len, 512+len, 65536+len); codes: every string of length <= 3 over a 28-character alphabet (all code letters, lower case, digits, dash, space, tab) at every metric's parser plus rapid arbitrary strings; version: label parser/printer pairs of v3/metric and the legacy v3/version on generated labels and integers. Non-trivial = a string that is not a valid code of the metric (must parse to unknown), or a dependent-weight table; distinct by hash of (version, metric, string)."
+	c.rec.F.Rule = "tables (complete): for all 22 v3 and 14 v2 metrics every code, its exported constant, printing, the validity predicates, every weight (PR per scope; every Modified metric at every own value x every base value; MPR over all 3 x 2 x 4 x 3 combinations of MS, S, MPR, PR) every integer in [-8, max+8] and integers aliasing a defined value under 8/16/32-bit truncation (no panic, print empty, same weight as the unknown value in every context; defined values under out-of-range contexts likewise); an ASCII character next to every two-byte rune in both orders (thorough: every valid UTF-8 string of at most 3 bytes) at every parser; long strings that start with a valid code (NUL / letter / blank fill at lengths 7..17, 255..257, 256+len, 512+len, 65536+len); codes: every string of length <= 3 over a 28-character alphabet (all code letters, lower case, digits, dash, space, tab) at every metric's parser plus rapid arbitrary strings; version: label parser/printer pairs of v3/metric and the legacy v3/version on generated labels and integers. Non-trivial = a string that is not a valid code of the metric (must parse to unknown), or a dependent-weight table; distinct by hash of (version, metric, string)."
 	c.rec.F.Assumptions = []string{"weights compared with ==: both sides are the nearest double of the same decimal literal", "for the v2 base metrics only separation by IsUnknown is required (its sense is the negation of its name)"}
 	nviol := 0
 	if shard == 0 {
@@ -496,6 +496,67 @@ func TestC20(t *testing.T) {
 			}
 		}
 		c.rec.Bulk("short-strings", evals, nt, map[string]int64{"short-string-at-parser": evals})
+	}
+	// ---- short non-ASCII strings: an ASCII character next to any two-byte rune, in both
+	// orders (quick); every valid UTF-8 string of at most 3 bytes (thorough) — rune / byte
+	// confusions in hand-written lookups
+	{
+		var evals int64
+		j := 0
+		try := func(s string) {
+			for _, a := range apis {
+				evals++
+				if a.get(s) != 0 {
+					cs := codeCase{Ver: a.ver, Metric: a.name, Code: []byte(s), Text: strconv.Quote(s)}
+					evalEnum(c, "code", cs, checkC20Code, &nviol)
+				}
+			}
+		}
+		if thorough() {
+			for r1 := rune(0); r1 <= 0xFFFF && nviol == 0; r1++ {
+				if r1 >= 0xD800 && r1 <= 0xDFFF {
+					continue
+				}
+				j++
+				if !mine(j) {
+					continue
+				}
+				s1 := string(r1)
+				if len(s1) == 3 {
+					try(s1)
+					continue
+				}
+				for r2 := rune(0); r2 <= 0x7FF; r2++ {
+					s2 := s1 + string(r2)
+					if len(s2) > 3 {
+						break
+					}
+					if len(s2) == 3 || len(s2) == 2 {
+						try(s2)
+					}
+					if len(s2) == 2 { // three one-byte runes
+						for r3 := rune(0); r3 <= 0x7F; r3++ {
+							try(s2 + string(r3))
+						}
+					}
+				}
+			}
+		} else {
+			for a := rune(0x20); a < 0x7F && nviol == 0; a++ {
+				j++
+				if !mine(j) {
+					continue
+				}
+				for r := rune(0x80); r <= 0x7FF; r++ {
+					try(string(a) + string(r))
+					try(string(r) + string(a))
+				}
+			}
+		}
+		c.rec.Bulk("short-non-ascii", evals, evals, map[string]int64{"short-non-ascii-string-at-parser": evals})
+		if shard == 0 && thorough() {
+			c.rec.F.Exhaustive = append(c.rec.F.Exhaustive, "every valid UTF-8 string of at most 3 bytes x 36 parsers")
+		}
 	}
 	// ---- long strings that start with a valid code (fixed-size keys, length bytes, NUL fill)
 	{
